@@ -356,21 +356,40 @@ theorem Vis.of_push {c c' : IndexCtx} {f : Nat} {nm t : PTree} {o : Op} {loc : F
 
 /-- `loc` is, in file `f`, the range of the first token of an `Identifier` node inside `n` -/
 def IdLoc (f : Nat) (n : PTree) (loc : FileRange) : Prop :=
-  loc.file = f ∧ ∃ sv t, Desc n sv ∧ sv.isNode = true ∧ sv.kind = .Identifier ∧ sv.firstToken = some t ∧
-    t.start = loc.start ∧ t.stop = loc.stop
+  loc.file = f ∧
+    ((∃ sv t, Desc n sv ∧ sv.isNode = true ∧ sv.kind = .Identifier ∧ sv.firstToken = some t ∧
+      t.start = loc.start ∧ t.stop = loc.stop) ∨
+     (∃ t nm, Desc n t ∧ t.isToken = true ∧ t.start + 1 = loc.start ∧ loc.stop + 1 = t.stop ∧
+       t.text.toList = '"' :: nm ++ ['"'] ∧ nm ≠ []))
 
 theorem IdLoc.up {f : Nat} {n ch : PTree} {loc : FileRange} (h : IdLoc f ch loc) (hd : Desc n ch) : IdLoc f n loc := by
-  obtain ⟨h1, sv, t, h2, h3⟩ := h
-  exact ⟨h1, sv, t, hd.trans h2, h3⟩
+  obtain ⟨h1, ⟨sv, t, h2, h3⟩ | ⟨t, nm, h2, h3⟩⟩ := h
+  · exact ⟨h1, Or.inl ⟨sv, t, hd.trans h2, h3⟩⟩
+  · exact ⟨h1, Or.inr ⟨t, nm, hd.trans h2, h3⟩⟩
 
-/-- the bounds of an identifier location: non-empty, inside the node -/
+/-- the bounds of a name location: non-empty, inside the node -/
 theorem IdLoc.bounds {f : Nat} {n : PTree} {loc : FileRange} (h : IdLoc f n loc) (hn : NodeOK n) :
     loc.start < loc.stop ∧ n.start ≤ loc.start ∧ loc.stop ≤ n.stop := by
-  obtain ⟨_, sv, t, hd, hnode, hk, ht, hs, he⟩ := h
-  obtain ⟨h1, h2, h3⟩ := (hn.desc hd).idLoc hnode hk ht
-  have hi := hn.inside hd
-  unfold Inside at hi
-  omega
+  obtain ⟨_, ⟨sv, t, hd, hnode, hk, ht, hs, he⟩ | ⟨t, nm, hd, htok, hs, he, hq, hne⟩⟩ := h
+  · obtain ⟨h1, h2, h3⟩ := (hn.desc hd).idLoc hnode hk ht
+    have hi := hn.inside hd
+    unfold Inside at hi
+    omega
+  · have hi := hn.inside hd
+    unfold Inside at hi
+    -- the token spans its text: two quotes and a non-empty name
+    obtain ⟨txt, hsp⟩ := hn.spans
+    obtain ⟨_, pre, m, post, _, hs', _⟩ := hsp.desc hd
+    have hmid : t.text.toList = m := by
+      cases hs' with
+      | token k s m => simp [PTree.text]
+      | node => simp [PTree.isToken, PTree.isNode] at htok
+    have hstop := hs'.stop_eq
+    rw [← hmid, hq] at hstop
+    have hq1 : utf8Len '"' = 1 := by decide
+    have hpos : 0 < byteLen nm := byteLen_pos_of_ne_nil hne
+    simp only [byteLen_cons, byteLen_append, byteLen_nil, hq1] at hstop
+    omega
 
 theorem utilsIdentifier_id {ws0 : Workspace} {c : IndexCtx} {f : Nat} (hc : Cur ws0 c f) {nm : PTree}
     (hnode : nm.isNode = true) (hk : nm.kind = .Identifier) :
@@ -381,7 +400,7 @@ theorem utilsIdentifier_id {ws0 : Workspace} {c : IndexCtx} {f : Nat} (hc : Cur 
   intro name loc hr
   obtain ⟨hf, t, ht, hs, he⟩ := h name loc hr
   rw [hc.head] at hf
-  exact ⟨(Option.some.inj hf).symm, nm, t, Desc.refl _, hnode, hk, ht, hs, he⟩
+  exact ⟨(Option.some.inj hf).symm, Or.inl ⟨nm, t, Desc.refl _, hnode, hk, ht, hs, he⟩⟩
 
 /-- a registration at an identifier inside `n` -/
 theorem Vis.reg {c c' : IndexCtx} {f : Nat} {n : PTree} {o : Op} {loc : FileRange} (hp : Push c c' o)
